@@ -563,3 +563,67 @@ fn differential_stale_statistics() {
     }
     println!("stale statistics: checked {} queries, {} discrepancies", seeds, bad);
 }
+
+
+// ---- metamorphic: the names of the variables do not matter (names an engine might use internally)
+fn rename(q: &str, map: &[(&str, &str)]) -> String {
+    let mut out = String::new();
+    let b: Vec<char> = q.chars().collect();
+    let mut i = 0;
+    while i < b.len() {
+        if b[i] == '?' {
+            let mut j = i + 1;
+            while j < b.len() && (b[j].is_alphanumeric() || b[j] == '_') { j += 1; }
+            let name: String = b[i + 1..j].iter().collect();
+            let new = map.iter().find(|(a, _)| *a == name).map(|(_, n)| n.to_string()).unwrap_or(name);
+            out.push('?');
+            out.push_str(&new);
+            i = j;
+        } else {
+            out.push(b[i]);
+            i += 1;
+        }
+    }
+    out
+}
+
+#[test]
+fn differential_renamed_variables() {
+    let seeds: u64 = std::env::var("PROBE_SEEDS").ok().and_then(|v| v.parse().ok()).unwrap_or(400);
+    let pools: [&[&str]; 4] = [
+        &["s", "p", "o", "g", "subject", "predicate", "object", "graph"],
+        &["_0", "_1", "x0", "v1", "var", "value", "type", "a"],
+        &["S", "s", "Ss", "sS", "s_", "_s", "s1", "s11"],
+        &["count", "COUNT", "sum", "limit", "where", "select", "filter", "union"],
+    ];
+    let mut bad = 0;
+    let mut n = 0;
+    for seed in 1..1 + seeds {
+        let mut r = Rng(seed.wrapping_mul(0x9E3779B97F4A7C15) | 1);
+        let data = gen_data(&mut r);
+        let group = gen_group(&mut r, 2, false);
+        let distinct = r.chance(25);
+        let proj: Vec<&str> = VARS.iter().chain(NUMVARS.iter()).chain(["g"].iter()).cloned().collect();
+        let q = format!("SELECT {}{} WHERE {}", if distinct { "DISTINCT " } else { "" }, proj.iter().map(|v| format!("?{}", v)).collect::<Vec<_>>().join(" "), group_text(&group));
+        let mut db = load(&data);
+        let base = match std::panic::catch_unwind(std::panic::AssertUnwindSafe(|| execute_sparql_query(&q, &mut db))) { Ok(Ok(mut rows)) => { rows.sort(); rows } _ => continue };
+        let all: Vec<&str> = proj.clone();
+        for pool in pools.iter() {
+            let map: Vec<(&str, &str)> = all.iter().enumerate().map(|(i, v)| (*v, pool[i % pool.len()])).collect();
+            // keep the mapping injective
+            let mut seen = std::collections::HashSet::new();
+            if !map.iter().all(|(_, n)| seen.insert(*n)) { continue; }
+            let q2 = rename(&q, &map);
+            n += 1;
+            let mut db2 = load(&data);
+            let got = std::panic::catch_unwind(std::panic::AssertUnwindSafe(|| execute_sparql_query(&q2, &mut db2)));
+            let got = match got { Ok(Ok(mut rows)) => { rows.sort(); Ok(rows) } Ok(Err(e)) => Err(format!("ERROR {}", e.lines().nth(1).unwrap_or(""))), Err(_) => Err("PANIC".to_string()) };
+            if got.as_ref().ok() != Some(&base) {
+                bad += 1;
+                if bad <= 12 { println!("seed {} renamed differs\n  {}\n  {}\n  base {:?}\n  got  {:?}", seed, q, q2, &base[..base.len().min(4)], got.as_ref().map(|r| r[..r.len().min(4)].to_vec())); }
+            }
+        }
+    }
+    println!("checked {} renamed queries, {} discrepancies", n, bad);
+    assert_eq!(bad, 0);
+}
